@@ -382,3 +382,21 @@ def _(h):
     k = h.real('k', 1, 2)
     h.eq('SE3 matrix unchanged by repr/str', X.A * k, before * k, exact_only=True)
     h.eq('Twist3 unchanged by str', tw.S * k, tb * k, exact_only=True)
+
+
+@claim('matrix-argument-constructors')
+def _(h):
+    """constructors that take a whole array (N x 4 table of quaternions, N x 3 table of angles, 3 x 3 / 4 x 4 matrices, with
+    the default normalising / checking options) leave it unchanged"""
+    A = h.mat('A', 2, 4, -5, 5)
+    h.assume(nsq(A[0]) >= 1e-2)
+    h.assume(nsq(A[1]) >= 1e-2)
+    guarded(h, lambda M: UnitQuaternion(M), [A])
+    guarded(h, lambda M: Quaternion(M), [A])
+    G = h.mat('G', 2, 3, -1.5, 1.5)
+    guarded(h, lambda M: SO3.RPY(M), [G])
+    guarded(h, lambda M: SE3.Eul(M), [G])
+    R = _R(h)
+    guarded(h, lambda M: UnitQuaternion(M), [R])
+    guarded(h, lambda M: SO3(M), [R])
+    guarded(h, lambda M: SE3(M), [_T(h)])
